@@ -81,49 +81,58 @@ private:
         const Complex shift = Complex(shiftr, Scalar(0));
         m_op.set_shift(shiftr, Scalar(0));
 
-        // Calculate inv(A - r * I) * vj
-        Vector v_real(m_n), v_imag(m_n), OPv_real(m_n), OPv_imag(m_n);
-        const Scalar eps = TypeTraits<Scalar>::epsilon();
-        for (Index i = 0; i < m_nev; i++)
+        // If the operator throws in here, it must not be left at the probe shift
+        try
         {
-            v_real.noalias() = m_fac.matrix_V() * m_ritz_vec.col(i).real();
-            v_imag.noalias() = m_fac.matrix_V() * m_ritz_vec.col(i).imag();
-            m_op.perform_op(v_real.data(), OPv_real.data());
-            m_op.perform_op(v_imag.data(), OPv_imag.data());
-
-            // Two roots computed from the quadratic equation
-            const Complex nu = m_ritz_val[i];
-            const Complex root_part1 = m_sigmar + Scalar(0.5) / nu;
-            const Complex root_part2 = Scalar(0.5) * sqrt(Scalar(1) - Scalar(4) * m_sigmai * m_sigmai * (nu * nu)) / nu;
-            const Complex root1 = root_part1 + root_part2;
-            const Complex root2 = root_part1 - root_part2;
-
-            // Test roots
-            Scalar err1 = Scalar(0), err2 = Scalar(0);
-            for (int k = 0; k < m_n; k++)
+            // Calculate inv(A - r * I) * vj
+            Vector v_real(m_n), v_imag(m_n), OPv_real(m_n), OPv_imag(m_n);
+            const Scalar eps = TypeTraits<Scalar>::epsilon();
+            for (Index i = 0; i < m_nev; i++)
             {
-                const Complex rhs1 = Complex(v_real[k], v_imag[k]) / (root1 - shift);
-                const Complex rhs2 = Complex(v_real[k], v_imag[k]) / (root2 - shift);
-                const Complex OPv = Complex(OPv_real[k], OPv_imag[k]);
-                err1 += norm(OPv - rhs1);
-                err2 += norm(OPv - rhs2);
-            }
+                v_real.noalias() = m_fac.matrix_V() * m_ritz_vec.col(i).real();
+                v_imag.noalias() = m_fac.matrix_V() * m_ritz_vec.col(i).imag();
+                m_op.perform_op(v_real.data(), OPv_real.data());
+                m_op.perform_op(v_imag.data(), OPv_imag.data());
 
-            const Complex lambdaj = (err1 < err2) ? root1 : root2;
-            m_ritz_val[i] = lambdaj;
+                // Two roots computed from the quadratic equation
+                const Complex nu = m_ritz_val[i];
+                const Complex root_part1 = m_sigmar + Scalar(0.5) / nu;
+                const Complex root_part2 = Scalar(0.5) * sqrt(Scalar(1) - Scalar(4) * m_sigmai * m_sigmai * (nu * nu)) / nu;
+                const Complex root1 = root_part1 + root_part2;
+                const Complex root2 = root_part1 - root_part2;
 
-            // A real Ritz value nu belongs to a real eigenvector and hence to a real eigenvalue,
-            // even if rounding in the square root above leaves a small imaginary part
-            // (|lambda - sigmar| close to |sigmai|); only complex nu come in conjugate pairs
-            if (Eigen::numext::imag(nu) != Scalar(0) && abs(Eigen::numext::imag(lambdaj)) > eps)
-            {
-                m_ritz_val[i + 1] = Eigen::numext::conj(lambdaj);
-                i++;
+                // Test roots
+                Scalar err1 = Scalar(0), err2 = Scalar(0);
+                for (int k = 0; k < m_n; k++)
+                {
+                    const Complex rhs1 = Complex(v_real[k], v_imag[k]) / (root1 - shift);
+                    const Complex rhs2 = Complex(v_real[k], v_imag[k]) / (root2 - shift);
+                    const Complex OPv = Complex(OPv_real[k], OPv_imag[k]);
+                    err1 += norm(OPv - rhs1);
+                    err2 += norm(OPv - rhs2);
+                }
+
+                const Complex lambdaj = (err1 < err2) ? root1 : root2;
+                m_ritz_val[i] = lambdaj;
+
+                // A real Ritz value nu belongs to a real eigenvector and hence to a real eigenvalue,
+                // even if rounding in the square root above leaves a small imaginary part
+                // (|lambda - sigmar| close to |sigmai|); only complex nu come in conjugate pairs
+                if (Eigen::numext::imag(nu) != Scalar(0) && abs(Eigen::numext::imag(lambdaj)) > eps)
+                {
+                    m_ritz_val[i + 1] = Eigen::numext::conj(lambdaj);
+                    i++;
+                }
+                else
+                {
+                    m_ritz_val[i] = Complex(Eigen::numext::real(lambdaj), Scalar(0));
+                }
             }
-            else
-            {
-                m_ritz_val[i] = Complex(Eigen::numext::real(lambdaj), Scalar(0));
-            }
+        }
+        catch (...)
+        {
+            m_op.set_shift(m_sigmar, m_sigmai);
+            throw;
         }
 
         // The operator has been moved to the probe shift above; put the user's shift back,
